@@ -92,7 +92,7 @@ def build(ctx):
         for (sch, inc, mname) in [(sch1, inc1, m_) for m_ in sel] + [(sch2, inc2, m_) for m_ in sel2]:
             msg = sch.message(mname)
             g = msggen.MG(sch, msg, G)
-            u = ctx.lower("c10_%s_%s" % (sch.ns, mname), g.cpp_prelude() + g.cpp_getset(True) + g.cpp_geom(True, True) + g.cpp_cursor() + cpp_extra(g) + c17.cpp(g) + c05.cpp_traits(g).split("\n")[-2] + "\n",
+            u = ctx.lower("c10_%s_%s" % (sch.ns, mname), g.cpp_prelude() + g.cpp_getset(True) + g.cpp_geom(True, True) + g.cpp_cursor() + cpp_extra(g) + c17.cpp(g) + c05.cpp_csize(g) + "\n",
                           std=std, mode="checked", incs=[inc])
             nmax = g.max_size(E, D)
             al = arms(g)
@@ -108,7 +108,7 @@ def build(ctx):
     # hostile group header: blockLength and numInGroup of a flat group are ANY uint16 values, the view is short, the entry index is any valid index
     msgg = sch.message("grp")
     gg = msggen.MG(sch, msgg, 2)
-    ug = ctx.lower("c10_%s_%s" % (sch.ns, "grp"), gg.cpp_prelude() + gg.cpp_getset(True) + gg.cpp_geom(True, True) + gg.cpp_cursor() + cpp_extra(gg) + c17.cpp(gg) + c05.cpp_traits(gg).split("\n")[-2] + "\n",
+    ug = ctx.lower("c10_%s_%s" % (sch.ns, "grp"), gg.cpp_prelude() + gg.cpp_getset(True) + gg.cpp_geom(True, True) + gg.cpp_cursor() + cpp_extra(gg) + c17.cpp(gg) + c05.cpp_csize(gg) + "\n",
                    std="17", mode="checked", incs=[inc])
     for (label, call) in (("get_g_a", "CALL(get_grp_g_a(buf, n, i0, 0));"), ("set_g_e", "IN(u64, v); CALL(set_grp_g_e(buf, n, i0, 0, v));"),
                           ("get_g_in_y", "CALL(get_grp_g_in_y(buf, n, i0, 0));"), ("ginfo_g", "i64 o[6]; CALL(ginfo_grp_g(buf, n, i0, 0, o));"),
@@ -129,7 +129,7 @@ def build(ctx):
     # hostile / extreme <data> length: a length prefix at the top of its (uint8) type with a view shorter than the message
     msg = sch.message("odd")
     g = msggen.MG(sch, msg, 1)
-    u = ctx.lower("c10_%s_%s" % (sch.ns, "odd"), g.cpp_prelude() + g.cpp_getset(True) + g.cpp_geom(True, True) + g.cpp_cursor() + cpp_extra(g) + c17.cpp(g) + c05.cpp_traits(g).split("\n")[-2] + "\n",
+    u = ctx.lower("c10_%s_%s" % (sch.ns, "odd"), g.cpp_prelude() + g.cpp_getset(True) + g.cpp_geom(True, True) + g.cpp_cursor() + cpp_extra(g) + c17.cpp(g) + c05.cpp_csize(g) + "\n",
                   std="17", mode="checked", incs=[inc])
     for (label, call) in (("dinfo_da", "i64 o[4]; IN(u32, k); VASSUME(k < 256); CALL(dinfo_odd_da(buf, n, 0, 0, k, o));"),
                           ("dset_da", "IN(u64, v); IN(u32, k); VASSUME(k < img[14]); CALL(dset_odd_da(buf, n, 0, 0, k, v));"),
